@@ -323,7 +323,7 @@ fn pair_strategy(max_len: usize) -> BoxedStrategy<Pair> {
 fn prim_value(ty: u8, sel: u8, raw: u128) -> BigInt {
     let (lo, hi) = crate::props::c01::prim_bounds(ty);
     let span: BigInt = &hi - &lo + 1;
-    let cand = [BigInt::from(0), BigInt::from(1), BigInt::from(-1), BigInt::from(2), BigInt::from(-2), lo.clone(), hi.clone(), BigInt::from(3), BigInt::from(10), BigInt::from(7)];
+    let cand = [BigInt::from(0), BigInt::from(1), BigInt::from(-1), BigInt::from(2), BigInt::from(-2), lo.clone(), hi.clone(), BigInt::from(3), BigInt::from(10), BigInt::from(7), &hi - 1, &lo + 1, &hi - 2];
     let v = if (sel as usize) < cand.len() { cand[sel as usize].clone() } else { &lo + (BigInt::from(raw) % &span) };
     v.max(lo).min(hi)
 }
@@ -375,13 +375,13 @@ pub fn run(ctx: &Ctx) {
     ctx.enumerated(
         "prim-matrix",
         "prim",
-        10 * 10 * 6,
+        10 * 13 * 6,
         true,
-        "EXHAUSTIVE: 10 integer types x {0, 1, -1, 2, -2, MIN, MAX, 3, 10, 7} x 6 decimals (incl. zero and >100-digit values); 9 overloads each (/, /=, & forms, primitive numerator)",
+        "EXHAUSTIVE: 10 integer types x {0, 1, -1, 2, -2, MIN, MAX, 3, 10, 7, MAX-1, MIN+1, MAX-2} x 6 decimals (incl. zero and >100-digit values); 9 overloads each (/, /=, & forms, primitive numerator)",
         |i| {
             let ty = (i % 10) as u8;
-            let sel = ((i / 10) % 10) as u8;
-            let which = i / 100;
+            let sel = ((i / 10) % 13) as u8;
+            let which = i / 130;
             let a = match which {
                 0 => D::new("0", 3),
                 1 => D::new("1", 0),
@@ -404,7 +404,7 @@ pub fn run(ctx: &Ctx) {
         check_pair,
     );
     let max_len = t.pick(300usize, 2000);
-    ctx.generated("random-pairs", "pair", t.pick(60_000, 1_500_000), "1..max digits, any scales/signs; divisors 2^i*5^j; terminating near 100 digits; a = q*b +- r with long q; equal integers; |a| << / >> |b|; zero divisors", move || pair_strategy(max_len), check_pair);
-    ctx.generated("random-prims", "prim", t.pick(30_000, 600_000), "random decimal x primitive integer of random type (specials 0, +-1, +-2, MIN, MAX), 9 overloads each", move || prim_strategy(max_len.min(150)), check_prim);
-    ctx.generated("random-floats", "float", t.pick(20_000, 400_000), "random decimal x normal f32/f64 (specials +-1, +-2, 0.1, 3, 1e10; exponents within +-40), 9 overloads each", move || float_strategy(max_len.min(150)), check_float);
+    ctx.generated("random-pairs", "pair", t.pick(200_000, 2_000_000), "1..max digits, any scales/signs; divisors 2^i*5^j; terminating near 100 digits; a = q*b +- r with long q; equal integers; |a| << / >> |b|; zero divisors", move || pair_strategy(max_len), check_pair);
+    ctx.generated("random-prims", "prim", t.pick(100_000, 800_000), "random decimal x primitive integer of random type (specials 0, +-1, +-2, MIN, MAX), 9 overloads each", move || prim_strategy(max_len.min(150)), check_prim);
+    ctx.generated("random-floats", "float", t.pick(60_000, 600_000), "random decimal x normal f32/f64 (specials +-1, +-2, 0.1, 3, 1e10; exponents within +-40), 9 overloads each", move || float_strategy(max_len.min(150)), check_float);
 }
